@@ -182,6 +182,9 @@ def check_c05(tier):
     # the reader's verdict must not depend on how the file is delivered (ReaderFaults.tla)
     from rf_checks import reader_faults
     reader_faults(rep, "C05", ["bundle", "magic"], tier)
+    # calls on independent objects running in parallel do not interfere (Trace_Purity, race detector)
+    from purity_checks import parallel_cold
+    parallel_cold(rep, "C05", "bundle.Read")
     return rep.finish()
 
 
